@@ -246,8 +246,10 @@ func c05TxtCases(t *testing.T, out *vfOut, s *Server, r *vfRand) {
 				fail("the response with the record cannot be packed (%v): the query gets no reply", perr)
 			} else if uerr := back.Unpack(wire); uerr != nil {
 				fail("the packed response does not unpack: %v", uerr)
-			} else if txt, isTxt := back.Answer[0].(*dns.TXT); !isTxt || strings.Join(txt.Txt, "\x00|") != strings.Join(ans.(*dns.TXT).Txt, "\x00|") {
-				fail("the record does not come back from the wire as it was built")
+			} else if wire2, rerr := back.Pack(); rerr != nil || string(wire2) != string(wire) || len(back.Answer) != 1 {
+				// (miekg keeps TXT strings in escaped text form, so the strings are
+				// compared on the wire, not in memory)
+				fail("what comes back from the wire does not pack to the same octets again (%v)", rerr)
 			}
 		}
 		out.Emit(vfCase{ID: out.NextID(), Coq: vfApp("CTxtAns", vfN(nameWire), vfN(uint64(len(v))), vfBool(err != nil)), Nontrivial: true,
